@@ -59,6 +59,7 @@ class TFn(Fn):
 
     def map_hasher(self, e):
         e = strip(e)
+        if self.kind(e) == "hasher": return True        # let hb = self.map.hasher();
         return e[0] == "mcall" and e[3] == "hasher" and not e[4] and is_self_field(strip(e[2]), "map")
 
     def num(self, e):
@@ -130,6 +131,11 @@ class TFn(Fn):
                 if g[0] == "mcall" and g[3] == "get" and is_path(strip(g[2]), "self") and len(g[4]) == 1 and self.is_str(g[4][0]): return "TRSelfGetIsSome"
                 k = self.strings_get(g)
                 if k: return "TRStrsIsSome (%s)" % k
+            # DashMap::contains_key(k) = get(k).is_some()   (dashmap 6.0.0: lib.rs:846-852 contains_key -> _contains_key,
+            # t.rs:123-129  `fn _contains_key(..) { self._get(key).is_some() }`)
+            if e0[0] == "mcall" and e0[3] == "contains_key" and is_self_field(strip(e0[2]), "strings") and len(e0[4]) == 1 \
+                    and self.kind(e0[4][0]) == "key":
+                return "TRStrsIsSome (EVar %s)" % q(names_of(strip(e0[4][0]))[0])
             return "TRBool (%s)" % self.boolean(e0)
         if rk == "usize": return "TRNum (%s)" % self.num(e0)
         if rk == "opt_str" and e0[0] == "mcall" and e0[3] == "map" and len(e0[4]) == 1 and self.deref_closure(e0[4][0]):
@@ -169,6 +175,7 @@ class TFn(Fn):
             els = self.block(e[4], True) if e[4][0] == "block" else self.tail(e[4])
             return [("if", self.boolean(e[2]), self.block(e[3], True), els, e[1])]
         if k == "iflet": return self.expr_stmt(e, e[1], True)
+        if k == "match": return self.match(e, None, True)
         if k in ("return", "if") or self.rkind == "unit": return self.expr_stmt(e, e[1], False)
         return [("s", "TReturn (%s)" % self.result(e), e[1])]
 
@@ -179,6 +186,10 @@ class TFn(Fn):
         e = strip(init)
         if e[0] == "mcall" and e[3] == "write" and not e[4]:
             u = strip(e[2])
+            # self.map.shards()[i]  =  self.map.shards().get(i).unwrap()   (both panic iff i is out of range; trusted reading:
+            # determine_shard returns an index below the shard count)
+            if u[0] == "index":
+                u = ("mcall", u[1], ("mcall", u[1], u[2], "get", [u[3]]), "unwrap", [])
             if u[0] == "mcall" and u[3] == "unwrap" and not u[4]:
                 g = strip(u[2])
                 if g[0] == "mcall" and g[3] == "get" and len(g[4]) == 1 and strip(g[2])[0] == "mcall" and strip(g[2])[3] == "shards" \
@@ -190,6 +201,8 @@ class TFn(Fn):
             self.lost(st, "lock statement outside the subset")
         if mut: self.lost(st, "`let mut` outside the subset")
         if e[0] == "match": return self.match(e, x)
+        if e[0] == "mcall" and e[3] == "hasher" and not e[4] and is_self_field(strip(e[2]), "map"):
+            self.sc.bind(x, "hasher", ln); return []
         if self.is_str(e):
             self.sc.bind(x, "static" if self.is_static(e) else "str", ln); return []
         if e[0] == "mcall" and e[3] == "hash_one" and len(e[4]) == 1 and self.map_hasher(e[2]) and self.is_str(e[4][0]):
@@ -224,8 +237,12 @@ class TFn(Fn):
         self.sc.bind(x, "num", ln)
         return [("s", "TLet %s (%s)" % (q(x), n), ln)]
 
-    def arm(self, body):
-        """(stmts, value IR) of a key-valued match arm"""
+    def arm(self, body, want_value=True, tail_returns=False):
+        """(stmts, value IR) of a match arm: key-valued (want_value), or a statement / tail block"""
+        if not want_value:
+            if body[0] == "block":
+                self.sc.push(); st = self.stmts(body, tail_returns); self.sc.pop(); return st, "EConst 0"
+            return (self.tail(body) if tail_returns else self.expr_stmt(body, body[1], False)), "EConst 0"
         if body[0] == "block" and (body[2] or (body[3] is not None and strip(body[3])[0] != "un")):
             st = []
             for s in body[2]:
@@ -235,10 +252,11 @@ class TFn(Fn):
         if strip(body)[0] == "return": return self.expr_stmt(strip(body), body[1], False), "EConst 0"
         return [], self.key_num(body)
 
-    def match(self, e, x):
+    def match(self, e, x, tail_returns=False):
         _, ln, scrut, arms = e
         s = strip(scrut)
-        if len(arms) != 2: self.lost(e, "match needs exactly two arms")
+        if len(arms) != 2 or any(len(a) != 2 for a in arms): self.lost(e, "match needs exactly two unguarded arms")
+        wv = x is not None
         pats = {}
         for pat, body in arms:
             if not (pat[0] == "ptuplestruct" and len(pat[3]) == 1 and pat[3][0][0] == "pbind" and not pat[3][0][3]): self.lost(e, "match arm pattern outside the subset")
@@ -258,17 +276,17 @@ class TFn(Fn):
                 self.lost(e, "the re-hash closure is not `|(k, _)| self.map.hasher().hash_one(k)`")
             if set(pats) != {("Ok",), ("Err",)}: self.lost(e, "arms are not Ok(bucket) / Err(slot)")
             ob, obody, l1 = pats[("Ok",)]; sl, sbody, l2 = pats[("Err",)]
-            self.sc.push(); self.sc.bind(ob, "bucket", l1); occ = self.arm(obody); self.sc.pop()
-            self.sc.push(); self.sc.bind(sl, "slot", l2); vac = self.arm(sbody); self.sc.pop()
-            self.sc.bind(x, "key", ln)
-            return [("find", x, sh, h, (ob,) + occ, (sl,) + vac, ln)]
+            self.sc.push(); self.sc.bind(ob, "bucket", l1); occ = self.arm(obody, wv, tail_returns); self.sc.pop()
+            self.sc.push(); self.sc.bind(sl, "slot", l2); vac = self.arm(sbody, wv, tail_returns); self.sc.pop()
+            if wv: self.sc.bind(x, "key", ln)
+            return [("find", x or "_", sh, h, (ob,) + occ, (sl,) + vac, ln)]
         if s[0] == "mcall" and s[3] == "entry" and is_self_field(strip(s[2]), "map") and len(s[4]) == 1 and self.is_static(s[4][0]):
             if set(pats) != {("Entry", "Occupied"), ("Entry", "Vacant")}: self.lost(e, "arms are not Entry::Occupied(o) / Entry::Vacant(v)")
             eo, obody, l1 = pats[("Entry", "Occupied")]; ev, vbody, l2 = pats[("Entry", "Vacant")]
-            self.sc.push(); self.sc.bind(eo, "occ", l1); occ = self.arm(obody); self.sc.pop()
-            self.sc.push(); self.sc.bind(ev, "vac", l2); vac = self.arm(vbody); self.sc.pop()
-            self.sc.bind(x, "key", ln)
-            return [("entry", x, (eo,) + occ, (ev,) + vac, ln)]
+            self.sc.push(); self.sc.bind(eo, "occ", l1); occ = self.arm(obody, wv, tail_returns); self.sc.pop()
+            self.sc.push(); self.sc.bind(ev, "vac", l2); vac = self.arm(vbody, wv, tail_returns); self.sc.pop()
+            if wv: self.sc.bind(x, "key", ln)
+            return [("entry", x or "_", (eo,) + occ, (ev,) + vac, ln)]
         self.lost(e, "`match` on something that is neither <shard>.find_or_find_insert_slot(..) nor self.map.entry(<static str>)")
 
     def expr_stmt(self, e, ln, tail_returns):
@@ -389,6 +407,11 @@ def run(repo, out):
         b = strip(parser.fn_body(f))
         if b[0] == "mcall" and b[3] == "len" and not b[4] and is_self_field(strip(b[2]), "strings"): env["accessors"].add("len")
         parts = []
+        import astx
+        inlined = set()
+        KEEP = {("ThreadedRodeo", "len"), ("ThreadedRodeo", "get"), ("ThreadedRodeo", "try_get_or_intern"),
+                ("ThreadedRodeo", "try_get_or_intern_static"), ("ThreadedRodeo", "verif_shard_of")}
+        keep = lambda ty, name, node: (ty, name) in KEEP
         for name, gen, params, ret, rk, kinds in METHODS:
             f = unique(name, params, ret)
             env["as_ref_nodes"] = {}
@@ -397,7 +420,9 @@ def run(repo, out):
             for (p, _t), kd in zip([x for x in f[4] if x[0] != "self"], kinds):
                 fnl.sc.bind(p, kd, f[1])
                 if kd in ("key", "limits"): ps.append(p)
-            stl = fnl.stmts(parser.fn_body(f), True)
+            body, inl = astx.prepare(parser, items, f, "ThreadedRodeo", keep, adjacent_methods=("fetch_add",))
+            inlined.update(inl)
+            stl = fnl.stmts(body, True)
             if rk == "unit": stl.append(("s", "TReturn TRUnit", f[7]))
             parts.append("(* %s:%d-%d  fn %s *)\nDefinition %s : tfundef := mkTFun [%s]\n  (%s).\n" % (
                 rel, f[1], f[7], name, gen, "; ".join(q(p) for p in ps), tpp(stl, 2, rel)))
@@ -407,13 +432,14 @@ def run(repo, out):
     hdr = """(* ThreadedGen.v -- GENERATED by rust2coq.py from %s
    DO NOT EDIT: regenerated on every run.  Terms of the IR of GenIRThreaded.v.  ONE-THREAD VIEW: DashMap operations are
    the primitives listed there, every lock is free, orderings are ignored, verif_point!(..) is nothing.
-   Callees replaced by their specification: %s *)
+   Callees replaced by their specification: %s
+   Private helpers of the source file inlined before lowering (astx.py): %s *)
 From Lasso Require Import Base Arena Rodeo.
 From LassoGen Require Import GenPrelude GenIR GenIRRodeo GenIRThreaded.
 Open Scope string_scope.
 Open Scope N_scope.
 
-""" % (path, ", ".join(sorted(set("%s::%s" % (t, n) for t, n, _ in known.needs))))
+""" % (path, ", ".join(sorted(set("%s::%s" % (t, n) for t, n, _ in known.needs))), ", ".join(sorted(inlined)) or "none")
     tail = "\n#[global] Hint Unfold %s : arenagen.\n" % " ".join(g for _, g, _, _, _, _ in METHODS)
     open(os.path.join(out, "ThreadedGen.v"), "w").write(hdr + "\n".join(parts) + tail)
     print("rust2coq: threaded: %d definitions -> %s" % (len(METHODS), os.path.join(out, "ThreadedGen.v")))
